@@ -1,1 +1,1323 @@
-fn main(){}
+//! bitmon: runtime monitor for property C19
+//! "Bit-level primitives agree with two's complement and IEEE-754".
+//!
+//! Calls the real public functions of `rusty_variant` (qb_and, qb_or, i32_to_bytes,
+//! bytes_to_i32, f64_to_bytes, bytes_to_f64, Variant::and / or / unary_not) and compares
+//! every result with the machine operation as the oracle. Doubles are compared by bit pattern.
+//! Every call into the code under test is wrapped in catch_unwind; a panic is a violation.
+
+use std::cell::RefCell;
+use std::collections::BTreeMap;
+use std::fmt::Write as _;
+use std::panic::{AssertUnwindSafe, catch_unwind};
+use std::time::Instant;
+
+use rusty_variant::{Variant, bytes_to_f64, bytes_to_i32, f64_to_bytes, i32_to_bytes, qb_and, qb_or};
+
+// ---------------------------------------------------------------------------------------------
+// panic capture
+// ---------------------------------------------------------------------------------------------
+
+#[derive(Clone, Debug, PartialEq)]
+struct PanicInfo {
+    msg: String,
+    file: String,
+    line: u32,
+}
+
+thread_local! {
+    static LAST_PANIC: RefCell<Option<PanicInfo>> = const { RefCell::new(None) };
+}
+
+fn install_silent_hook() {
+    std::panic::set_hook(Box::new(|info| {
+        let msg = if let Some(s) = info.payload().downcast_ref::<&str>() {
+            (*s).to_string()
+        } else if let Some(s) = info.payload().downcast_ref::<String>() {
+            s.clone()
+        } else {
+            "<non-string panic payload>".to_string()
+        };
+        let (file, line) = match info.location() {
+            Some(l) => (l.file().to_string(), l.line()),
+            None => ("<unknown>".to_string(), 0),
+        };
+        LAST_PANIC.with(|p| *p.borrow_mut() = Some(PanicInfo { msg, file, line }));
+    }));
+}
+
+fn guarded<T>(f: impl FnOnce() -> T) -> Result<T, PanicInfo> {
+    match catch_unwind(AssertUnwindSafe(f)) {
+        Ok(v) => Ok(v),
+        Err(_) => Err(LAST_PANIC.with(|p| p.borrow_mut().take()).unwrap_or(PanicInfo {
+            msg: "<panic without hook record>".into(),
+            file: "<unknown>".into(),
+            line: 0,
+        })),
+    }
+}
+
+/// Path made independent of where the source tree lives: keep from the last `rusty_*` component.
+fn normalize_file(file: &str) -> String {
+    let parts: Vec<&str> = file.split('/').collect();
+    match parts.iter().rposition(|p| p.starts_with("rusty_")) {
+        Some(i) => parts[i..].join("/"),
+        None => file.to_string(),
+    }
+}
+
+/// Digits erased, whitespace collapsed, truncated.
+fn normalize_msg(msg: &str) -> String {
+    let mut out = String::new();
+    let mut last_hash = false;
+    let mut last_space = false;
+    for c in msg.chars() {
+        if c.is_ascii_digit() {
+            if !last_hash {
+                out.push('#');
+            }
+            last_hash = true;
+            last_space = false;
+        } else if c.is_whitespace() {
+            if !last_space {
+                out.push(' ');
+            }
+            last_space = true;
+            last_hash = false;
+        } else {
+            out.push(c);
+            last_hash = false;
+            last_space = false;
+        }
+        if out.len() >= 100 {
+            break;
+        }
+    }
+    out.trim().to_string()
+}
+
+// ---------------------------------------------------------------------------------------------
+// cases, values, evaluation
+// ---------------------------------------------------------------------------------------------
+
+const FN_NAMES: [&str; 12] = [
+    "qb_and",
+    "qb_or",
+    "variant_and",
+    "variant_or",
+    "variant_not",
+    "i32_to_bytes",
+    "bytes_to_i32",
+    "i32_roundtrip",
+    "bytes_roundtrip",
+    "f64_to_bytes",
+    "bytes_to_f64",
+    "f64_roundtrip",
+];
+
+#[derive(Clone, Copy, Debug, PartialEq)]
+enum Case {
+    And(i32, i32),
+    Or(i32, i32),
+    VAnd(i32, i32),
+    VOr(i32, i32),
+    VNot(i32),
+    I2B(i32),
+    B2I(u8, u8),
+    /// bytes_to_i32(i32_to_bytes(v)) == v
+    IRound(i32),
+    /// i32_to_bytes(bytes_to_i32([lo, hi])) == [lo, hi]
+    BRound(u8, u8),
+    /// argument is the bit pattern of the double
+    F2B(u64),
+    /// argument is the bit pattern whose little endian bytes are passed
+    B2F(u64),
+    /// bytes_to_f64(f64_to_bytes(x)) == x
+    FRound(u64),
+}
+
+impl Case {
+    fn fn_id(&self) -> usize {
+        match self {
+            Case::And(..) => 0,
+            Case::Or(..) => 1,
+            Case::VAnd(..) => 2,
+            Case::VOr(..) => 3,
+            Case::VNot(..) => 4,
+            Case::I2B(..) => 5,
+            Case::B2I(..) => 6,
+            Case::IRound(..) => 7,
+            Case::BRound(..) => 8,
+            Case::F2B(..) => 9,
+            Case::B2F(..) => 10,
+            Case::FRound(..) => 11,
+        }
+    }
+
+    fn fn_name(&self) -> &'static str {
+        FN_NAMES[self.fn_id()]
+    }
+
+    /// Arguments in the textual form accepted by --replay.
+    fn args(&self) -> Vec<String> {
+        match *self {
+            Case::And(a, b) | Case::Or(a, b) | Case::VAnd(a, b) | Case::VOr(a, b) => {
+                vec![a.to_string(), b.to_string()]
+            }
+            Case::VNot(v) | Case::I2B(v) | Case::IRound(v) => vec![v.to_string()],
+            Case::B2I(lo, hi) | Case::BRound(lo, hi) => vec![lo.to_string(), hi.to_string()],
+            Case::F2B(b) | Case::B2F(b) | Case::FRound(b) => vec![format!("0x{:016x}", b)],
+        }
+    }
+
+    /// Human readable arguments (doubles also shown as decimal).
+    fn args_human(&self) -> String {
+        match *self {
+            Case::F2B(b) | Case::FRound(b) => {
+                format!("x=0x{:016x} ({:e})", b, f64::from_bits(b))
+            }
+            Case::B2F(b) => format!(
+                "bytes={:?} (le bytes of 0x{:016x} = {:e})",
+                b.to_le_bytes(),
+                b,
+                f64::from_bits(b)
+            ),
+            Case::B2I(lo, hi) | Case::BRound(lo, hi) => format!("bytes=[{}, {}]", lo, hi),
+            _ => self.args().join(", "),
+        }
+    }
+
+    /// Magnitude used for choosing minimal / maximal witnesses.
+    fn magnitude(&self) -> f64 {
+        match *self {
+            Case::And(a, b) | Case::Or(a, b) | Case::VAnd(a, b) | Case::VOr(a, b) => {
+                (a as f64).abs() + (b as f64).abs()
+            }
+            Case::VNot(v) | Case::I2B(v) | Case::IRound(v) => (v as f64).abs(),
+            Case::B2I(lo, hi) | Case::BRound(lo, hi) => {
+                (i16::from_le_bytes([lo, hi]) as f64).abs()
+            }
+            Case::F2B(b) | Case::B2F(b) | Case::FRound(b) => f64::from_bits(b).abs(),
+        }
+    }
+
+    /// Class of the input, part of the failure signature.
+    fn input_class(&self) -> &'static str {
+        fn unary(v: i32) -> &'static str {
+            if v == -32768 {
+                "min_integer"
+            } else if v < 0 {
+                "negative"
+            } else {
+                "nonnegative"
+            }
+        }
+        match *self {
+            Case::And(a, b) | Case::Or(a, b) | Case::VAnd(a, b) | Case::VOr(a, b) => {
+                if a == -32768 || b == -32768 {
+                    "involves_min_integer"
+                } else if a < 0 && b < 0 {
+                    "both_negative"
+                } else if a >= 0 && b >= 0 {
+                    "both_nonnegative"
+                } else {
+                    "mixed_sign"
+                }
+            }
+            Case::VNot(v) | Case::I2B(v) | Case::IRound(v) => unary(v),
+            Case::B2I(lo, hi) | Case::BRound(lo, hi) => unary(i16::from_le_bytes([lo, hi]) as i32),
+            Case::F2B(b) | Case::B2F(b) | Case::FRound(b) => f64_class(b),
+        }
+    }
+}
+
+fn f64_class(bits: u64) -> &'static str {
+    let exp = (bits >> 52) & 0x7ff;
+    let mant = bits & ((1u64 << 52) - 1);
+    let neg = bits >> 63 == 1;
+    if exp == 0x7ff {
+        "nonfinite"
+    } else if exp == 0 && mant == 0 {
+        if neg { "negzero" } else { "zero" }
+    } else if exp == 0 {
+        "subnormal"
+    } else if exp >= 1023 + 63 {
+        "abs>=2^63"
+    } else {
+        "normal"
+    }
+}
+
+const DOUBLE_CLASS_NAMES: [&str; 5] = ["zero", "negzero", "subnormal", "normal", "abs>=2^63"];
+
+fn f64_class_id(bits: u64) -> usize {
+    let c = f64_class(bits);
+    DOUBLE_CLASS_NAMES.iter().position(|n| *n == c).unwrap_or(3)
+}
+
+#[derive(Clone, Debug, PartialEq)]
+enum Val {
+    I(i32),
+    B2([u8; 2]),
+    B8([u8; 8]),
+    /// double by bit pattern
+    F(u64),
+    /// the Variant API returned something that is not Ok(VInteger(_))
+    Other(String),
+}
+
+impl Val {
+    fn show(&self) -> String {
+        match self {
+            Val::I(i) => format!("{} (0x{:04x})", i, (*i as u32) & 0xffff),
+            Val::B2(b) => format!("{:?}", b),
+            Val::B8(b) => format!("{:?} (0x{:016x})", b, u64::from_le_bytes(*b)),
+            Val::F(b) => format!("0x{:016x} ({:e})", b, f64::from_bits(*b)),
+            Val::Other(s) => s.clone(),
+        }
+    }
+}
+
+fn variant_result_to_val(r: Result<Variant, rusty_variant::VariantError>) -> Val {
+    match r {
+        Ok(Variant::VInteger(i)) => Val::I(i),
+        Ok(other) => Val::Other(format!("Ok({:?})", other)),
+        Err(e) => Val::Other(format!("Err({:?})", e)),
+    }
+}
+
+struct Outcome {
+    real: Result<Val, PanicInfo>,
+    expected: Val,
+}
+
+impl Outcome {
+    fn ok(&self) -> bool {
+        match &self.real {
+            Ok(v) => *v == self.expected,
+            Err(_) => false,
+        }
+    }
+}
+
+/// The oracle and the call into the code under test, side by side.
+fn eval(case: Case) -> Outcome {
+    match case {
+        Case::And(a, b) => Outcome {
+            real: guarded(|| Val::I(qb_and(a, b))),
+            expected: Val::I(((a as i16) & (b as i16)) as i32),
+        },
+        Case::Or(a, b) => Outcome {
+            real: guarded(|| Val::I(qb_or(a, b))),
+            expected: Val::I(((a as i16) | (b as i16)) as i32),
+        },
+        Case::VAnd(a, b) => Outcome {
+            real: guarded(|| variant_result_to_val(Variant::VInteger(a).and(Variant::VInteger(b)))),
+            expected: Val::I(((a as i16) & (b as i16)) as i32),
+        },
+        Case::VOr(a, b) => Outcome {
+            real: guarded(|| variant_result_to_val(Variant::VInteger(a).or(Variant::VInteger(b)))),
+            expected: Val::I(((a as i16) | (b as i16)) as i32),
+        },
+        Case::VNot(v) => Outcome {
+            real: guarded(|| variant_result_to_val(Variant::VInteger(v).unary_not())),
+            expected: Val::I((!(v as i16)) as i32),
+        },
+        Case::I2B(v) => Outcome {
+            real: guarded(|| Val::B2(i32_to_bytes(v))),
+            expected: Val::B2((v as i16).to_le_bytes()),
+        },
+        Case::B2I(lo, hi) => Outcome {
+            real: guarded(|| Val::I(bytes_to_i32([lo, hi]))),
+            expected: Val::I(i16::from_le_bytes([lo, hi]) as i32),
+        },
+        Case::IRound(v) => Outcome {
+            real: guarded(|| Val::I(bytes_to_i32(i32_to_bytes(v)))),
+            expected: Val::I(v),
+        },
+        Case::BRound(lo, hi) => Outcome {
+            real: guarded(|| Val::B2(i32_to_bytes(bytes_to_i32([lo, hi])))),
+            expected: Val::B2([lo, hi]),
+        },
+        Case::F2B(bits) => {
+            let x = f64::from_bits(bits);
+            Outcome {
+                real: guarded(|| Val::B8(f64_to_bytes(x))),
+                expected: Val::B8(x.to_bits().to_le_bytes()),
+            }
+        }
+        Case::B2F(bits) => {
+            let bytes = bits.to_le_bytes();
+            Outcome {
+                real: guarded(|| Val::F(bytes_to_f64(&bytes).to_bits())),
+                expected: Val::F(f64::from_bits(u64::from_le_bytes(bytes)).to_bits()),
+            }
+        }
+        Case::FRound(bits) => {
+            let x = f64::from_bits(bits);
+            Outcome {
+                real: guarded(|| Val::F(bytes_to_f64(&f64_to_bytes(x)).to_bits())),
+                expected: Val::F(bits),
+            }
+        }
+    }
+}
+
+/// Which IEEE fields differ, for the one line description only (not part of the signature).
+fn field_diff(real: u64, expected: u64) -> String {
+    let mut v = vec![];
+    let d = real ^ expected;
+    if d >> 63 != 0 {
+        v.push("sign");
+    }
+    if (d >> 52) & 0x7ff != 0 {
+        v.push("exponent");
+    }
+    if d & ((1u64 << 52) - 1) != 0 {
+        v.push("mantissa");
+    }
+    v.join("+")
+}
+
+fn failure_class(case: Case, out: &Outcome) -> String {
+    match &out.real {
+        Err(p) => format!("panic:{}:{}", normalize_file(&p.file), normalize_msg(&p.msg)),
+        Ok(real) => {
+            let kind = match case {
+                Case::IRound(..) | Case::BRound(..) | Case::FRound(..) => "roundtrip",
+                Case::I2B(..) | Case::F2B(..) => "wrong_bytes",
+                _ => match real {
+                    Val::Other(_) => "unexpected_result_kind",
+                    _ => "wrong_value",
+                },
+            };
+            format!("{}:{}", kind, case.input_class())
+        }
+    }
+}
+
+fn failure_what(case: Case, out: &Outcome) -> String {
+    let real = match &out.real {
+        Ok(v) => v.show(),
+        Err(p) => format!("PANIC '{}' at {}:{}", p.msg.replace('\n', " "), p.file, p.line),
+    };
+    let mut s = format!(
+        "{}({}) real={} expected={}",
+        case.fn_name(),
+        case.args_human(),
+        real,
+        out.expected.show()
+    );
+    let diff = match (&out.real, &out.expected) {
+        (Ok(Val::B8(r)), Val::B8(e)) => Some(field_diff(u64::from_le_bytes(*r), u64::from_le_bytes(*e))),
+        (Ok(Val::F(r)), Val::F(e)) => Some(field_diff(*r, *e)),
+        _ => None,
+    };
+    if let Some(d) = diff {
+        let _ = write!(s, " differs_in={}", d);
+    }
+    s
+}
+
+// ---------------------------------------------------------------------------------------------
+// statistics
+// ---------------------------------------------------------------------------------------------
+
+#[derive(Clone)]
+struct Failure {
+    sig: String,
+    what: String,
+    case: Case,
+}
+
+#[derive(Clone)]
+struct SigInfo {
+    count: u64,
+    min_case: Case,
+    min_what: String,
+    max_case: Case,
+    max_what: String,
+}
+
+const PER_SIG_KEEP: usize = 8;
+const MAX_FAILURES: usize = 200;
+
+#[derive(Default, Clone)]
+struct Stats {
+    calls: [u64; 12],
+    mismatches: [u64; 12],
+    panics: [u64; 12],
+    /// number of distinct-or-not doubles checked per input class (counted on f64_to_bytes calls)
+    double_classes: [u64; 5],
+    /// at most PER_SIG_KEEP failures per signature, in encounter order
+    failures: Vec<Failure>,
+    sigs: BTreeMap<String, SigInfo>,
+}
+
+impl Stats {
+    fn check(&mut self, case: Case) {
+        let id = case.fn_id();
+        self.calls[id] += 1;
+        if let Case::F2B(b) = case {
+            self.double_classes[f64_class_id(b)] += 1;
+        }
+        let out = eval(case);
+        if out.ok() {
+            return;
+        }
+        if out.real.is_err() {
+            self.panics[id] += 1;
+        } else {
+            self.mismatches[id] += 1;
+        }
+        let sig = format!("{}:{}", case.fn_name(), failure_class(case, &out));
+        let mag = case.magnitude();
+        match self.sigs.get_mut(&sig) {
+            Some(info) => {
+                info.count += 1;
+                if info.count as usize <= PER_SIG_KEEP {
+                    self.failures.push(Failure { sig: sig.clone(), what: failure_what(case, &out), case });
+                }
+                if mag < info.min_case.magnitude() {
+                    info.min_case = case;
+                    info.min_what = failure_what(case, &out);
+                }
+                if mag > info.max_case.magnitude() {
+                    info.max_case = case;
+                    info.max_what = failure_what(case, &out);
+                }
+            }
+            None => {
+                let what = failure_what(case, &out);
+                self.failures.push(Failure { sig: sig.clone(), what: what.clone(), case });
+                self.sigs.insert(
+                    sig,
+                    SigInfo { count: 1, min_case: case, min_what: what.clone(), max_case: case, max_what: what },
+                );
+            }
+        }
+    }
+
+    fn merge(&mut self, other: Stats) {
+        for i in 0..12 {
+            self.calls[i] += other.calls[i];
+            self.mismatches[i] += other.mismatches[i];
+            self.panics[i] += other.panics[i];
+        }
+        for i in 0..5 {
+            self.double_classes[i] += other.double_classes[i];
+        }
+        for (sig, info) in other.sigs {
+            match self.sigs.get_mut(&sig) {
+                Some(mine) => {
+                    mine.count += info.count;
+                    if info.min_case.magnitude() < mine.min_case.magnitude() {
+                        mine.min_case = info.min_case;
+                        mine.min_what = info.min_what;
+                    }
+                    if info.max_case.magnitude() > mine.max_case.magnitude() {
+                        mine.max_case = info.max_case;
+                        mine.max_what = info.max_what;
+                    }
+                }
+                None => {
+                    self.sigs.insert(sig, info);
+                }
+            }
+        }
+        // keep at most PER_SIG_KEEP per signature over all
+        let mut kept: BTreeMap<String, usize> = BTreeMap::new();
+        for f in &self.failures {
+            *kept.entry(f.sig.clone()).or_default() += 1;
+        }
+        for f in other.failures {
+            let k = kept.entry(f.sig.clone()).or_default();
+            if *k < PER_SIG_KEEP {
+                *k += 1;
+                self.failures.push(f);
+            }
+        }
+    }
+
+    fn check_int_pair(&mut self, a: i32, b: i32) {
+        self.check(Case::And(a, b));
+        self.check(Case::Or(a, b));
+        self.check(Case::VAnd(a, b));
+        self.check(Case::VOr(a, b));
+    }
+
+    fn check_double(&mut self, bits: u64) {
+        self.check(Case::F2B(bits));
+        self.check(Case::B2F(bits));
+        self.check(Case::FRound(bits));
+    }
+}
+
+// ---------------------------------------------------------------------------------------------
+// workload
+// ---------------------------------------------------------------------------------------------
+
+struct SplitMix64(u64);
+
+impl SplitMix64 {
+    fn next(&mut self) -> u64 {
+        self.0 = self.0.wrapping_add(0x9E3779B97F4A7C15);
+        let mut z = self.0;
+        z = (z ^ (z >> 30)).wrapping_mul(0xBF58476D1CE4E5B9);
+        z = (z ^ (z >> 27)).wrapping_mul(0x94D049BB133111EB);
+        z ^ (z >> 31)
+    }
+}
+
+fn thread_rng(seed: u64, stream: u64, thread: u64) -> SplitMix64 {
+    let mut s = SplitMix64(seed ^ stream.wrapping_mul(0xD6E8FEB86659FD93));
+    let base = s.next();
+    let mut t = SplitMix64(base ^ thread.wrapping_mul(0xA0761D6478BD642F));
+    t.next();
+    t
+}
+
+/// boundary / one-hot / complement / pattern / small set for the binary operations
+fn special_ints() -> Vec<i32> {
+    let mut v: Vec<i32> = vec![-32768, -32767, -1, 0, 1, 32766, 32767];
+    for k in 0..16 {
+        let one_hot = (1u16 << k) as i16;
+        v.push(one_hot as i32);
+        v.push((!one_hot) as i32);
+        // low masks and high masks
+        let low_mask = ((1u32 << (k + 1)) - 1) as u16 as i16;
+        v.push(low_mask as i32);
+        v.push((!low_mask) as i32);
+    }
+    for p in [0x5555u16, 0xAAAA, 0x3333, 0xCCCC, 0x0F0F, 0xF0F0, 0x00FF, 0xFF00, 0x8001, 0x7FFE, 0x0180, 0xFE7F] {
+        v.push(p as i16 as i32);
+    }
+    for s in -8..=8 {
+        v.push(s);
+    }
+    for s in [127, 128, 129, 255, 256, 257, -127, -128, -129, -255, -256, -257, 12345, -12345] {
+        v.push(s);
+    }
+    v.sort();
+    v.dedup();
+    v
+}
+
+fn pow2_bits(e: i32) -> u64 {
+    // 2^e for -1074 <= e <= 1023
+    if e >= -1022 {
+        ((e + 1023) as u64) << 52
+    } else {
+        1u64 << (e + 1074)
+    }
+}
+
+/// structured doubles, as bit patterns of non-negative values; both signs are added by the caller
+fn special_doubles_abs() -> Vec<u64> {
+    let mut v: Vec<u64> = vec![];
+    let mant_mask = (1u64 << 52) - 1;
+    // zero
+    v.push(0);
+    // all powers of two, with neighbours
+    for e in -1074..=1023 {
+        let b = pow2_bits(e);
+        v.push(b);
+        if b > 0 {
+            v.push(b - 1);
+        }
+        v.push(b + 1);
+        // 1.5 * 2^e, 1.75 * 2^e and 1.11..1 * 2^e where representable as normal
+        if e >= -1022 {
+            v.push(b | (1u64 << 51));
+            v.push(b | (3u64 << 50));
+            v.push(b | mant_mask);
+            v.push(b | 0x5_5555_5555_5555);
+            v.push(b | 0xA_AAAA_AAAA_AAAA);
+        }
+    }
+    // boundary mantissas
+    v.push(1.0f64.to_bits() + 1);
+    v.push(1.0f64.to_bits() - 1);
+    v.push(f64::MAX.to_bits());
+    v.push(f64::MAX.to_bits() - 1);
+    v.push(f64::MIN_POSITIVE.to_bits());
+    v.push(f64::MIN_POSITIVE.to_bits() + 1);
+    v.push(f64::MIN_POSITIVE.to_bits() - 1); // largest subnormal
+    v.push(1); // smallest subnormal
+    v.push(2);
+    v.push(3);
+    v.push(f64::EPSILON.to_bits());
+    // subnormals with one mantissa bit and dense patterns
+    for k in 0..52 {
+        v.push(1u64 << k);
+        v.push((1u64 << k) | 1);
+        v.push(mant_mask >> k);
+    }
+    // around and beyond 2^53, 2^63, 2^64
+    for e in [52, 53, 54, 62, 63, 64, 65, 100, 127, 128, 511, 1023] {
+        let b = pow2_bits(e);
+        for d in 1..=4u64 {
+            v.push(b - d);
+            if e < 1023 {
+                v.push(b + d);
+            }
+        }
+    }
+    for x in [
+        9007199254740991.0f64,
+        9007199254740992.0,
+        9007199254740994.0,
+        4611686018427387904.0,
+        9223372036854774784.0,
+        9223372036854775807.0,
+        9223372036854775808.0,
+        9223372036854777856.0,
+        18446744073709551615.0,
+        18446744073709551616.0,
+        36893488147419103232.0,
+        1e15,
+        1e16,
+        1e17,
+        1e18,
+        9.2e18,
+        9.3e18,
+        1e19,
+        1e20,
+        1e22,
+        1e23,
+        1e100,
+        1e200,
+        1e300,
+        1e308,
+        1.7976931348623157e308,
+        1e-5,
+        1e-10,
+        1e-100,
+        1e-300,
+        1e-307,
+        2.2250738585072014e-308,
+        1e-308,
+        1e-310,
+        1e-320,
+        5e-324,
+        std::f64::consts::PI,
+        std::f64::consts::E,
+        1.0 / 3.0,
+        2.0 / 3.0,
+        0.1,
+        0.2,
+        0.3,
+        32767.0,
+        32768.0,
+        65535.0,
+        65536.0,
+        2147483647.0,
+        2147483648.0,
+        4294967295.0,
+        4294967296.0,
+        16777216.0,
+        16777217.0,
+        3.4028234663852886e38,
+    ] {
+        v.push(x.to_bits());
+    }
+    // integers 0..=4096
+    for i in 0..=4096 {
+        v.push((i as f64).to_bits());
+    }
+    // fractions k/1024, k = 1..=4096
+    for k in 1..=4096 {
+        v.push((k as f64 / 1024.0).to_bits());
+    }
+    // decimal tenths as in the unit tests of the crate
+    for i in 0..=100 {
+        v.push((i as f64 * 0.1).to_bits());
+    }
+    v.retain(|b| (b >> 52) & 0x7ff != 0x7ff && b >> 63 == 0);
+    v.sort();
+    v.dedup();
+    v
+}
+
+fn random_finite_double(rng: &mut SplitMix64) -> u64 {
+    loop {
+        let r = rng.next();
+        // one in eight draws is forced into the subnormal range (exponent field 0)
+        let sel = rng.next() & 7;
+        let bits = if sel == 0 { r & !(0x7ffu64 << 52) } else { r };
+        if (bits >> 52) & 0x7ff != 0x7ff {
+            return bits;
+        }
+    }
+}
+
+struct Tier {
+    name: &'static str,
+    random_pairs: u64,
+    random_doubles: u64,
+    threads: u64,
+}
+
+struct RunResult {
+    stats: Stats,
+    exhaustive: Vec<(&'static str, bool)>,
+    distinct: Vec<(&'static str, u64)>,
+}
+
+fn run_exhaustive_ints(stats: &mut Stats) {
+    for v in -32768i32..=32767 {
+        stats.check(Case::VNot(v));
+        stats.check(Case::I2B(v));
+        stats.check(Case::IRound(v));
+    }
+    for hi in 0..=255u8 {
+        for lo in 0..=255u8 {
+            stats.check(Case::B2I(lo, hi));
+            stats.check(Case::BRound(lo, hi));
+        }
+    }
+}
+
+fn pair_key(a: i32, b: i32) -> u32 {
+    (((a as i16 as u16) as u32) << 16) | ((b as i16 as u16) as u32)
+}
+
+fn count_distinct_nontrivial_pairs(keys: &mut Vec<u32>) -> (u64, u64, u64) {
+    keys.sort_unstable();
+    keys.dedup();
+    let mut and_nt = 0;
+    let mut or_nt = 0;
+    for k in keys.iter() {
+        let a = (k >> 16) as u16;
+        let b = (k & 0xffff) as u16;
+        let r = a & b;
+        if r != a && r != b {
+            and_nt += 1;
+        }
+        let r = a | b;
+        if r != a && r != b {
+            or_nt += 1;
+        }
+    }
+    (keys.len() as u64, and_nt, or_nt)
+}
+
+fn run_full(tier: &Tier, seed: u64) -> RunResult {
+    let mut stats = Stats::default();
+
+    // exhaustive unary / conversion part
+    run_exhaustive_ints(&mut stats);
+
+    // structured pairs
+    let specials = special_ints();
+    let mut pair_keys: Vec<u32> = Vec::new();
+    for &a in &specials {
+        for &b in &specials {
+            stats.check_int_pair(a, b);
+            pair_keys.push(pair_key(a, b));
+        }
+    }
+
+    // structured doubles
+    let mut double_keys: Vec<u64> = Vec::new();
+    for b in special_doubles_abs() {
+        for bits in [b, b | (1u64 << 63)] {
+            stats.check_double(bits);
+            double_keys.push(bits);
+        }
+    }
+
+    // random parts, fixed amount of work per thread so the result does not depend on scheduling
+    let threads = tier.threads;
+    let results: Vec<(Stats, Vec<u32>, Vec<u64>)> = std::thread::scope(|scope| {
+        let handles: Vec<_> = (0..threads)
+            .map(|t| {
+                let n_pairs = tier.random_pairs / threads + if t < tier.random_pairs % threads { 1 } else { 0 };
+                let n_doubles =
+                    tier.random_doubles / threads + if t < tier.random_doubles % threads { 1 } else { 0 };
+                scope.spawn(move || {
+                    let mut st = Stats::default();
+                    let mut pk = Vec::with_capacity(n_pairs as usize);
+                    let mut dk = Vec::with_capacity(n_doubles as usize);
+                    let mut rng = thread_rng(seed, 1, t);
+                    for _ in 0..n_pairs {
+                        let r = rng.next();
+                        let a = (r as u16) as i16 as i32;
+                        let b = ((r >> 16) as u16) as i16 as i32;
+                        st.check_int_pair(a, b);
+                        pk.push(pair_key(a, b));
+                    }
+                    let mut rng = thread_rng(seed, 2, t);
+                    for _ in 0..n_doubles {
+                        let bits = random_finite_double(&mut rng);
+                        st.check_double(bits);
+                        dk.push(bits);
+                    }
+                    (st, pk, dk)
+                })
+            })
+            .collect();
+        handles.into_iter().map(|h| h.join().expect("worker thread failed")).collect()
+    });
+    for (st, pk, dk) in results {
+        stats.merge(st);
+        pair_keys.extend(pk);
+        double_keys.extend(dk);
+    }
+
+    let (distinct_pairs, and_nt, or_nt) = count_distinct_nontrivial_pairs(&mut pair_keys);
+    double_keys.sort_unstable();
+    double_keys.dedup();
+    let doubles_nonzero = double_keys.iter().filter(|b| *b << 1 != 0).count() as u64;
+
+    RunResult {
+        stats,
+        exhaustive: vec![
+            ("not_i16", true),
+            ("i32_to_bytes_i16", true),
+            ("i32_bytes_roundtrip", true),
+            ("bytes_to_i32_all_byte_pairs", true),
+            ("bytes_i32_roundtrip_all_byte_pairs", true),
+            ("and_or_all_pairs", false),
+            ("doubles", false),
+        ],
+        distinct: vec![
+            ("pairs_distinct", distinct_pairs),
+            ("and_pairs_result_differs_from_both_inputs", and_nt),
+            ("or_pairs_result_differs_from_both_inputs", or_nt),
+            ("not_values", 65536),
+            ("int_conversion_values_nonzero", 65535),
+            ("byte_pairs_nonzero", 65535),
+            ("doubles_distinct", double_keys.len() as u64),
+            ("doubles_nonzero", doubles_nonzero),
+        ],
+    }
+}
+
+/// ~4000 evaluations, single threaded, deterministic; meant to run under Miri.
+fn run_miri_subset() -> RunResult {
+    let mut stats = Stats::default();
+    // 16-bit values with a stride coprime to 65536, plus the boundaries: ~ 140 values * 5 checks
+    let mut ints: Vec<i32> = vec![-32768, -32767, -1, 0, 1, 255, 256, 32766, 32767];
+    let mut v: i32 = -32768;
+    while v <= 32767 {
+        ints.push(v);
+        v += 499;
+    }
+    ints.sort();
+    ints.dedup();
+    for &v in &ints {
+        stats.check(Case::VNot(v));
+        stats.check(Case::I2B(v));
+        stats.check(Case::IRound(v));
+        let [lo, hi] = (v as i16).to_le_bytes();
+        stats.check(Case::B2I(lo, hi));
+        stats.check(Case::BRound(lo, hi));
+    }
+    // pairs: 24 x 24 x 4 checks
+    let sp = special_ints();
+    let step = sp.len() / 24 + 1;
+    let sub: Vec<i32> = sp.iter().copied().step_by(step).chain([-32768, 32767, -1]).collect();
+    let mut pair_keys = vec![];
+    for &a in &sub {
+        for &b in &sub {
+            stats.check_int_pair(a, b);
+            pair_keys.push(pair_key(a, b));
+        }
+    }
+    // doubles: ~ 200 patterns x 3 checks
+    let mut doubles: Vec<u64> = vec![0, 1 << 63, 1, f64::MIN_POSITIVE.to_bits() - 1, f64::MIN_POSITIVE.to_bits(), f64::MAX.to_bits()];
+    let mut e = -1074;
+    while e <= 1023 {
+        doubles.push(pow2_bits(e));
+        e += 37;
+    }
+    for e in [-1023, -1022, -2, -1, 0, 1, 2, 52, 53, 62, 63, 64, 1023] {
+        doubles.push(pow2_bits(e));
+        doubles.push(pow2_bits(e) | (1u64 << 63));
+        doubles.push(pow2_bits(e) + 1);
+    }
+    for i in 0..=20 {
+        doubles.push((i as f64).to_bits());
+        doubles.push((-(i as f64) * 0.1).to_bits());
+        doubles.push((i as f64 / 1024.0).to_bits());
+    }
+    let mut rng = thread_rng(12345, 3, 0);
+    for _ in 0..60 {
+        doubles.push(random_finite_double(&mut rng));
+    }
+    doubles.sort();
+    doubles.dedup();
+    for &b in &doubles {
+        stats.check_double(b);
+    }
+    let (distinct_pairs, and_nt, or_nt) = count_distinct_nontrivial_pairs(&mut pair_keys);
+    let nonzero = doubles.iter().filter(|b| *b << 1 != 0).count() as u64;
+    RunResult {
+        stats,
+        exhaustive: vec![
+            ("not_i16", false),
+            ("i32_to_bytes_i16", false),
+            ("i32_bytes_roundtrip", false),
+            ("bytes_to_i32_all_byte_pairs", false),
+            ("bytes_i32_roundtrip_all_byte_pairs", false),
+            ("and_or_all_pairs", false),
+            ("doubles", false),
+        ],
+        distinct: vec![
+            ("pairs_distinct", distinct_pairs),
+            ("and_pairs_result_differs_from_both_inputs", and_nt),
+            ("or_pairs_result_differs_from_both_inputs", or_nt),
+            ("not_values", ints.len() as u64),
+            ("int_conversion_values_nonzero", ints.iter().filter(|v| **v != 0).count() as u64),
+            ("byte_pairs_nonzero", ints.iter().filter(|v| **v != 0).count() as u64),
+            ("doubles_distinct", doubles.len() as u64),
+            ("doubles_nonzero", nonzero),
+        ],
+    }
+}
+
+// ---------------------------------------------------------------------------------------------
+// JSON
+// ---------------------------------------------------------------------------------------------
+
+fn jstr(s: &str) -> String {
+    let mut o = String::with_capacity(s.len() + 2);
+    o.push('"');
+    for c in s.chars() {
+        match c {
+            '"' => o.push_str("\\\""),
+            '\\' => o.push_str("\\\\"),
+            '\n' => o.push_str("\\n"),
+            '\r' => o.push_str("\\r"),
+            '\t' => o.push_str("\\t"),
+            c if (c as u32) < 0x20 => {
+                let _ = write!(o, "\\u{:04x}", c as u32);
+            }
+            c => o.push(c),
+        }
+    }
+    o.push('"');
+    o
+}
+
+fn jcase(case: Case) -> String {
+    let args: Vec<String> = case.args().iter().map(|a| jstr(a)).collect();
+    format!("{{\"fn\": {}, \"args\": [{}]}}", jstr(case.fn_name()), args.join(", "))
+}
+
+fn jsample(case: Case) -> String {
+    let out = eval(case);
+    let real = match &out.real {
+        Ok(v) => v.show(),
+        Err(p) => format!("PANIC {}", p.msg),
+    };
+    let args: Vec<String> = case.args().iter().map(|a| jstr(a)).collect();
+    format!(
+        "{{\"function\": {}, \"args\": [{}], \"real\": {}, \"expected\": {}}}",
+        jstr(case.fn_name()),
+        args.join(", "),
+        jstr(&real),
+        jstr(&out.expected.show())
+    )
+}
+
+fn to_json(mode: &str, seed: u64, threads: u64, elapsed_ms: u128, r: &RunResult) -> String {
+    let st = &r.stats;
+    let evaluations: u64 = st.calls.iter().sum();
+    // headline number: distinct non-trivial argument tuples
+    let get = |k: &str| r.distinct.iter().find(|(n, _)| *n == k).map(|(_, v)| *v).unwrap_or(0);
+    let distinct_nontrivial = get("and_pairs_result_differs_from_both_inputs")
+        + get("or_pairs_result_differs_from_both_inputs")
+        + get("not_values")
+        + get("int_conversion_values_nonzero")
+        + get("byte_pairs_nonzero")
+        + get("doubles_nonzero");
+
+    let mut s = String::new();
+    s.push_str("{\n");
+    let _ = writeln!(s, "  \"monitor\": \"bitmon\",");
+    let _ = writeln!(s, "  \"property\": \"C19\",");
+    let _ = writeln!(s, "  \"mode\": {},", jstr(mode));
+    let _ = writeln!(s, "  \"seed\": {},", seed);
+    let _ = writeln!(s, "  \"threads\": {},", threads);
+    let _ = writeln!(s, "  \"debug_assertions\": {},", cfg!(debug_assertions));
+    let _ = writeln!(s, "  \"elapsed_ms\": {},", elapsed_ms);
+    let _ = writeln!(s, "  \"evaluations\": {},", evaluations);
+    let _ = writeln!(s, "  \"distinct_nontrivial\": {},", distinct_nontrivial);
+    s.push_str("  \"distinct_nontrivial_breakdown\": {");
+    s.push_str(&r.distinct.iter().map(|(k, v)| format!("{}: {}", jstr(k), v)).collect::<Vec<_>>().join(", "));
+    s.push_str("},\n");
+    s.push_str("  \"exhaustive\": {");
+    s.push_str(&r.exhaustive.iter().map(|(k, v)| format!("{}: {}", jstr(k), v)).collect::<Vec<_>>().join(", "));
+    s.push_str("},\n");
+    s.push_str("  \"per_function\": {\n");
+    for (i, name) in FN_NAMES.iter().enumerate() {
+        let _ = writeln!(
+            s,
+            "    {}: {{\"calls\": {}, \"mismatches\": {}, \"panics\": {}}}{}",
+            jstr(name),
+            st.calls[i],
+            st.mismatches[i],
+            st.panics[i],
+            if i + 1 < FN_NAMES.len() { "," } else { "" }
+        );
+    }
+    s.push_str("  },\n");
+    s.push_str("  \"double_input_classes_checked\": {");
+    s.push_str(
+        &DOUBLE_CLASS_NAMES
+            .iter()
+            .enumerate()
+            .map(|(i, n)| format!("{}: {}", jstr(n), st.double_classes[i]))
+            .collect::<Vec<_>>()
+            .join(", "),
+    );
+    s.push_str("},\n");
+    let total_failures: u64 = st.mismatches.iter().sum::<u64>() + st.panics.iter().sum::<u64>();
+    let _ = writeln!(s, "  \"total_failures\": {},", total_failures);
+    // samples
+    let mut rng = thread_rng(seed, 1, 0);
+    let r0 = rng.next();
+    let mut rng2 = thread_rng(seed, 2, 0);
+    let samples = [
+        Case::And((r0 as u16) as i16 as i32, ((r0 >> 16) as u16) as i16 as i32),
+        Case::I2B(-2),
+        Case::F2B(random_finite_double(&mut rng2)),
+    ];
+    s.push_str("  \"samples\": [\n");
+    for (i, c) in samples.iter().enumerate() {
+        let _ = writeln!(s, "    {}{}", jsample(*c), if i + 1 < samples.len() { "," } else { "" });
+    }
+    s.push_str("  ],\n");
+    // failures: round robin is not needed, per-signature cap already applied; cut at MAX_FAILURES
+    let shown: Vec<&Failure> = st.failures.iter().take(MAX_FAILURES).collect();
+    s.push_str("  \"failures\": [\n");
+    for (i, f) in shown.iter().enumerate() {
+        let _ = writeln!(
+            s,
+            "    {{\"sig\": {}, \"what\": {}, \"case\": {}}}{}",
+            jstr(&f.sig),
+            jstr(&f.what),
+            jcase(f.case),
+            if i + 1 < shown.len() { "," } else { "" }
+        );
+    }
+    s.push_str("  ],\n");
+    s.push_str("  \"failure_signature_counts\": {\n");
+    let n = st.sigs.len();
+    for (i, (sig, info)) in st.sigs.iter().enumerate() {
+        let _ = writeln!(s, "    {}: {}{}", jstr(sig), info.count, if i + 1 < n { "," } else { "" });
+    }
+    s.push_str("  },\n");
+    s.push_str("  \"signature_witnesses\": {\n");
+    for (i, (sig, info)) in st.sigs.iter().enumerate() {
+        let _ = writeln!(
+            s,
+            "    {}: {{\"smallest_magnitude\": {{\"what\": {}, \"case\": {}}}, \"largest_magnitude\": {{\"what\": {}, \"case\": {}}}}}{}",
+            jstr(sig),
+            jstr(&info.min_what),
+            jcase(info.min_case),
+            jstr(&info.max_what),
+            jcase(info.max_case),
+            if i + 1 < n { "," } else { "" }
+        );
+    }
+    s.push_str("  }\n");
+    s.push_str("}\n");
+    s
+}
+
+// ---------------------------------------------------------------------------------------------
+// replay and CLI
+// ---------------------------------------------------------------------------------------------
+
+fn parse_i16ish(s: &str) -> Result<i32, String> {
+    let v: i64 = parse_int(s)?;
+    if !(-32768..=32767).contains(&v) {
+        return Err(format!("'{}' is outside the INTEGER range", s));
+    }
+    Ok(v as i32)
+}
+
+fn parse_int(s: &str) -> Result<i64, String> {
+    let t = s.trim();
+    let r = if let Some(h) = t.strip_prefix("0x").or_else(|| t.strip_prefix("0X")) {
+        i64::from_str_radix(h, 16)
+    } else {
+        t.parse::<i64>()
+    };
+    r.map_err(|e| format!("cannot parse integer '{}': {}", s, e))
+}
+
+fn parse_byte(s: &str) -> Result<u8, String> {
+    let v = parse_int(s)?;
+    if !(0..=255).contains(&v) {
+        return Err(format!("'{}' is not a byte", s));
+    }
+    Ok(v as u8)
+}
+
+fn parse_bits(s: &str) -> Result<u64, String> {
+    let t = s.trim();
+    let h = t.strip_prefix("0x").or_else(|| t.strip_prefix("0X")).unwrap_or(t);
+    u64::from_str_radix(h, 16).map_err(|e| format!("cannot parse hex bit pattern '{}': {}", s, e))
+}
+
+fn parse_case(name: &str, args: &[String]) -> Result<Case, String> {
+    let need = |n: usize| -> Result<(), String> {
+        if args.len() == n {
+            Ok(())
+        } else {
+            Err(format!("{} takes {} argument(s), got {}", name, n, args.len()))
+        }
+    };
+    match name {
+        "qb_and" | "qb_or" | "variant_and" | "variant_or" => {
+            need(2)?;
+            let a = parse_i16ish(&args[0])?;
+            let b = parse_i16ish(&args[1])?;
+            Ok(match name {
+                "qb_and" => Case::And(a, b),
+                "qb_or" => Case::Or(a, b),
+                "variant_and" => Case::VAnd(a, b),
+                _ => Case::VOr(a, b),
+            })
+        }
+        "variant_not" | "i32_to_bytes" | "i32_roundtrip" => {
+            need(1)?;
+            let v = parse_i16ish(&args[0])?;
+            Ok(match name {
+                "variant_not" => Case::VNot(v),
+                "i32_to_bytes" => Case::I2B(v),
+                _ => Case::IRound(v),
+            })
+        }
+        "bytes_to_i32" | "bytes_roundtrip" => {
+            need(2)?;
+            let lo = parse_byte(&args[0])?;
+            let hi = parse_byte(&args[1])?;
+            Ok(if name == "bytes_to_i32" { Case::B2I(lo, hi) } else { Case::BRound(lo, hi) })
+        }
+        "f64_to_bytes" | "bytes_to_f64" | "f64_roundtrip" => {
+            need(1)?;
+            let b = parse_bits(&args[0])?;
+            Ok(match name {
+                "f64_to_bytes" => Case::F2B(b),
+                "bytes_to_f64" => Case::B2F(b),
+                _ => Case::FRound(b),
+            })
+        }
+        _ => Err(format!("unknown function '{}'; known: {}", name, FN_NAMES.join(", "))),
+    }
+}
+
+fn replay(args: &[String]) -> i32 {
+    if args.is_empty() {
+        eprintln!("usage: bitmon --replay <fn> <args...>   (doubles as hex bit patterns)");
+        return 2;
+    }
+    let case = match parse_case(&args[0], &args[1..]) {
+        Ok(c) => c,
+        Err(e) => {
+            eprintln!("bitmon: {}", e);
+            return 2;
+        }
+    };
+    let out = eval(case);
+    let real = match &out.real {
+        Ok(v) => v.show(),
+        Err(p) => format!("PANIC '{}' at {}:{}", p.msg.replace('\n', " "), p.file, p.line),
+    };
+    println!("case:     {}({})", case.fn_name(), case.args_human());
+    println!("real:     {}", real);
+    println!("expected: {}", out.expected.show());
+    if out.ok() {
+        println!("verdict:  OK");
+        0
+    } else {
+        println!("verdict:  MISMATCH sig={}:{}", case.fn_name(), failure_class(case, &out));
+        1
+    }
+}
+
+fn usage() -> ! {
+    eprintln!(
+        "usage:\n  bitmon --tier quick|thorough [--seed N] [--out FILE] [--threads N]\n  bitmon --miri-subset [--out FILE]\n  bitmon --replay <fn> <args...>\nfunctions: {}",
+        FN_NAMES.join(", ")
+    );
+    std::process::exit(2);
+}
+
+fn main() {
+    install_silent_hook();
+    let argv: Vec<String> = std::env::args().skip(1).collect();
+    let mut tier_name: Option<String> = None;
+    let mut seed: u64 = 1;
+    let mut out: Option<String> = None;
+    let mut threads: u64 = 16;
+    let mut miri = false;
+    let mut i = 0;
+    while i < argv.len() {
+        match argv[i].as_str() {
+            "--replay" => {
+                std::process::exit(replay(&argv[i + 1..]));
+            }
+            "--tier" => {
+                i += 1;
+                tier_name = Some(argv.get(i).cloned().unwrap_or_else(|| usage()));
+            }
+            "--seed" => {
+                i += 1;
+                seed = argv.get(i).and_then(|s| s.parse().ok()).unwrap_or_else(|| usage());
+            }
+            "--out" => {
+                i += 1;
+                out = Some(argv.get(i).cloned().unwrap_or_else(|| usage()));
+            }
+            "--threads" => {
+                i += 1;
+                threads = argv.get(i).and_then(|s| s.parse().ok()).filter(|t| *t >= 1).unwrap_or_else(|| usage());
+            }
+            "--miri-subset" => miri = true,
+            _ => usage(),
+        }
+        i += 1;
+    }
+
+    let start = Instant::now();
+    let (mode, result, used_threads) = if miri {
+        ("miri-subset".to_string(), run_miri_subset(), 1)
+    } else {
+        let tier = match tier_name.as_deref() {
+            Some("quick") => Tier { name: "quick", random_pairs: 200_000, random_doubles: 200_000, threads },
+            Some("thorough") => Tier { name: "thorough", random_pairs: 5_000_000, random_doubles: 2_000_000, threads },
+            _ => usage(),
+        };
+        (tier.name.to_string(), run_full(&tier, seed), threads)
+    };
+    let elapsed = start.elapsed().as_millis();
+    let json = to_json(&mode, seed, used_threads, elapsed, &result);
+    match &out {
+        Some(path) => {
+            if let Err(e) = std::fs::write(path, &json) {
+                eprintln!("bitmon: cannot write {}: {}", path, e);
+                std::process::exit(3);
+            }
+        }
+        None => print!("{}", json),
+    }
+    let st = &result.stats;
+    eprintln!(
+        "bitmon {}: {} evaluations, {} mismatches, {} panics, {} signatures, {} ms",
+        mode,
+        st.calls.iter().sum::<u64>(),
+        st.mismatches.iter().sum::<u64>(),
+        st.panics.iter().sum::<u64>(),
+        st.sigs.len(),
+        elapsed
+    );
+    for (sig, info) in &st.sigs {
+        eprintln!("  {:>9}  {}", info.count, sig);
+    }
+}
